@@ -328,13 +328,14 @@ func c05Round(rep *verifrep.R, seed int64, dir string) {
 	var faultLog []string
 	for f := 0; f < faults; f++ {
 		time.Sleep(time.Duration(100+rng.Intn(500)) * time.Millisecond)
-		if rng.Intn(2) == 0 {
+		delayed := nd.persistDelay != "0"
+		if rng.Intn(2) == 0 || (delayed && f == 0) {
 			c.private("GET", "/snapshot", verifPassword, nil, nil)
 			snaps++
 			faultLog = append(faultLog, "snapshot")
 			time.Sleep(time.Duration(rng.Intn(50)) * time.Millisecond)
 		}
-		if rng.Intn(3) == 0 || (f == 0 && seed%2 == 0) {
+		if !(delayed && f == 0) && (rng.Intn(3) == 0 || (f == 0 && seed%2 == 0)) {
 			// in-place restore under load; handlers that still use the replaced stores may take
 			// the process down (it is then restarted like after a kill)
 			nd.mu.Lock()
